@@ -3,7 +3,7 @@
 Each row names a function, a target (assignment / struct field / let / return value / constant)
 and the pattern the value must have.  Rows are grouped by property."""
 import hirutil as H
-from hp import (CALLARG, CLAMP, Ctx, ANY, K, L, F, M, C, BIN, UN, CAST, TRY, P, VIA, OR, IF, CONTAINS, find, assignments,
+from hp import (unique_inits, RET, INDEX, BREAK, ASSIGNOP as _ASSIGNOP, CALLARG, CLAMP, Ctx, ANY, K, L, F, M, C, BIN, UN, CAST, TRY, P, VIA, OR, IF, CONTAINS, find, assignments,
                 struct_field_inits, strip)
 from facts import callee_of, op_local
 from common import loc_of
@@ -191,6 +191,94 @@ row('C11', EVENTS, 'break:end>=start',
                  VIA(M('max', L('start_time'), TRY(C('ParseNumber>::parse', ANY()))))))
 row('C11', EVENTS, 'break:start', _struct_init('section::events::BreakPeriod', 'start_time',
                                                VIA(TRY(C('ParseNumber>::parse', L('start_time'))))))
+def _event_arm(hfn, variant):
+    """body of the `EventType::<variant>` arm of the event-kind match"""
+    res = []
+
+    def visit(n, anc):
+        if n.get('k') == 'match' and not n.get('src', '').startswith('TryDesugar'):
+            for a in n['arms']:
+                pats = a['pat'].get('pats') if a['pat'].get('k') == 'por' else [a['pat']]
+                for p in pats:
+                    e = p.get('e') if isinstance(p, dict) else None
+                    if isinstance(e, dict) and e.get('def') == 'section::events::EventType::' + variant:
+                        res.append(a['body'])
+    H.walk(hfn['body'], visit)
+    return res
+
+
+def _bg_assignments(arm):
+    """(rhs, line, enclosing ifs with the branch taken) of `..background_file = rhs` in an arm"""
+    out = []
+
+    def visit(n, anc):
+        if n.get('k') == 'assign':
+            fc = H.field_chain(n['l'])
+            if fc and fc[1] == ['background_file']:
+                ifs = []
+                for i, a in enumerate(anc):
+                    if a.get('k') == 'if':
+                        nxt = anc[i + 1] if i + 1 < len(anc) else n
+                        ifs.append((a, 't' if a.get('t') is nxt else ('e' if a.get('e') is nxt else 'c')))
+                out.append((n['r'], n.get('ln'), ifs))
+    H.walk(arm, visit)
+    return out
+
+
+def _bg_precedence(variant):
+    def chk(ctx, hfn):
+        arms = _event_arm(hfn, variant)
+        if len(arms) != 1:
+            return False, 'expected one `EventType::%s` arm, found %d' % (variant, len(arms)), None
+        asg = _bg_assignments(arms[0])
+        if not asg:
+            return False, 'the %s arm never sets the background file' % variant, None
+        for rhs, ln, ifs in asg:
+            if variant == 'Background':
+                if ifs:
+                    return False, 'a background event sets the background file only conditionally', ln
+            elif variant == 'Sprite':
+                want = M('is_empty', F(ANY(), 'background_file'))
+                if not any(br == 't' and want.m(ctx, i['c']) for i, br in ifs):
+                    return False, 'a sprite replaces the background file even when one is already set', ln
+            elif variant == 'Video':
+                def negated_membership(c):
+                    c = strip(c)
+                    if not (isinstance(c, dict) and c.get('k') == 'unary' and c.get('op') == 'Not'):
+                        return False
+                    x = strip(c['e'])
+                    cands = [x]
+                    if isinstance(x, dict) and x.get('k') == 'local':
+                        cands = unique_inits(ctx, x['name'])
+                    return any(CONTAINS(P('VIDEO_EXTENSIONS')).m(ctx, y) for y in cands)
+                if not any(br == 't' and negated_membership(i['c']) for i, br in ifs):
+                    return False, ('a video event sets the background file without the file having a non-video '
+                                   'extension (negated VIDEO_EXTENSIONS test)'), ln
+        return True, '', asg[0][1]
+    return chk
+
+
+def _video_extensions(ctx, hfn):
+    keys = [k for k in ctx.facts.hir if k.endswith('::VIDEO_EXTENSIONS')]
+    if len(keys) != 1:
+        return False, 'constant VIDEO_EXTENSIONS not found', None
+    got = set()
+
+    def visit(n, anc):
+        if n.get('k') == 'lit':
+            if n.get('t') == 'bytes':
+                got.add(bytes(n['v']).decode('latin1'))
+            elif n.get('t') == 'str':
+                got.add(n['v'].lstrip('.'))
+    H.walk(ctx.facts.hir[keys[0]]['body'], visit)
+    exp = {'mp4', 'mov', 'avi', 'flv', 'mpg', 'wmv', 'm4v'}
+    ok = got == exp
+    return ok, '' if ok else 'video extensions are %s, the format says %s' % (sorted(got), sorted(exp)), None
+
+
+for _v in ('Background', 'Sprite', 'Video'):
+    row('C11', EVENTS, 'background-precedence:' + _v, _bg_precedence(_v))
+row('C11', EVENTS, 'video-extension-list', _video_extensions)
 row('C11', None, 'const:MAX_PARSE_VALUE', _const('util::parse_number::MAX_PARSE_VALUE', 2147483647))
 for t in ('i32', 'f32', 'f64'):
     row('C11', '<%s as util::parse_number::ParseNumber>::parse' % t, 'limit:' + t,
@@ -204,6 +292,12 @@ for t in ('f32', 'f64'):
         _contains(M('is_nan', L('n')), 'NaN rejection'))
 row('C11', '<section::colors::Color as std::str::FromStr>::from_str', 'alpha=255',
     _contains(C('Color::new', ANY(), ANY(), ANY(), K(255)), 'colour built as R,G,B with alpha 255'))
+
+# ------------------------------------------------------------------------------ C05
+SKIP = 'decode::DecodeBeatmap::should_skip_line'
+_TRIMMED = OR(M('trim_start', L('line')), M('trim', L('line')))
+row('C05', SKIP, 'skip:blank-or-comment',
+    _ret(BIN('Or', M('is_empty', OR(L('line'), _TRIMMED)), M('starts_with', _TRIMMED, K('//')), commutative=True)))
 
 # ------------------------------------------------------------------------------ C12
 TPN = 'section::timing_points::control_points::'
@@ -259,6 +353,16 @@ row('C14', HITOBJ, 'repeat-cap',
 row('C14', HITOBJ, 'repeat_count-1',
     _contains(C('cmp::max', K(0), BIN('Sub', L('repeat_count'), K(1))), 'repeat_count = max(0, n - 1)'))
 row('C14', HITOBJ, 'nodes=repeats+2', _let('nodes', BIN('Add', CAST(L('repeat_count'), 'usize'), K(2))))
+def _filled(elem):
+    # `vec![elem; nodes]` or the iterator spellings of the same vector
+    return OR(C('from_elem', elem, L('nodes')),
+              M('collect', M('take', C('repeat', elem), L('nodes'))),
+              M('collect', C('repeat_n', elem, L('nodes'))))
+
+
+row('C14', HITOBJ, 'node-default:sound-type', _let('node_sound_types', _filled(L('sound_type'))))
+row('C14', HITOBJ, 'node-default:bank',
+    _let('node_bank_infos', _filled(OR(M('clone', L('bank_info')), L('bank_info')))))
 row('C14', HITOBJ, 'spinner-duration>=0',
     _let('duration', M('max', BIN('Sub', L('duration'), L('start_time')), K(0.0)), every=False))
 row('C14', HITOBJ, 'hold-end>=start',
@@ -356,6 +460,55 @@ row('C19', CURVE + 'position_at', 'composition:idx', _let('i', C('idx_of_dist', 
 row('C19', CURVE + 'position_at', 'composition:interpolate',
     _ret(C('interpolate_vertices', L('path'), L('lengths'), L('i'), L('d'))))
 
+
+
+def _raw_param_only_through(pidx, accept, what):
+    """the raw value of parameter #pidx is used only as an argument of one of `accept` (pattern
+    constructors applied to the parameter): it cannot reach the result unclamped"""
+    def chk(ctx, hfn):
+        names = H.pat_bindings(hfn['params'][pidx]) if len(hfn.get('params', [])) > pidx else []
+        if len(names) != 1:
+            return False, 'parameter #%d not found' % pidx, None
+        name = names[0]
+        if ctx.inits.get(name):
+            return False, 'parameter `%s` is re-bound before it is used' % name, None
+        pats = [mk(L(name)) for mk in accept]
+        bad = []
+
+        def visit(n, anc):
+            if n.get('k') == 'local' and n.get('name') == name:
+                # nearest ancestors up to the first call
+                for a in reversed(anc):
+                    if a.get('k') in ('addr',) or (a.get('k') == 'unary' and a.get('op') == 'Deref'):
+                        continue
+                    ctx.env = {}
+                    if not any(p.m0(ctx, a) for p in pats):
+                        bad.append(n)
+                    break
+        H.walk(hfn['body'], visit)
+        ok = not bad
+        return ok, '' if ok else ('the raw `%s` is used outside %s: a value outside [0, 1] is not clamped on that path'
+                                  % (name, what)), bad[0].get('ln') if bad else None
+    return chk
+
+
+row('C19', CURVE + 'position_at', 'raw-progress-only-clamped',
+    _raw_param_only_through(2, [lambda p: C('progress_to_dist', ANY(), p), lambda p: CLAMP(p, K(0.0), K(1.0))],
+                            'progress_to_dist / clamp(0, 1)'))
+row('C19', CURVE + 'progress_to_dist', 'raw-progress-only-clamped',
+    _raw_param_only_through(1, [lambda p: CLAMP(p, K(0.0), K(1.0))], 'clamp(0, 1)'))
+IV = CURVE + 'interpolate_vertices'
+row('C19', IV, 'zero-length-segment-guard',
+    _contains(IF(OR(BIN('Le', M('abs', BIN('Sub', L('d0'), L('d1'), commutative=True)), ANY()),
+                    BIN('Lt', M('abs', BIN('Sub', L('d0'), L('d1'), commutative=True)), ANY())),
+                 CONTAINS(RET(L('p0')))),
+              'a (near) zero-length segment returns its first vertex instead of dividing'))
+row('C19', IV, 'weight', _let('w', BIN('Div', BIN('Sub', L('d'), L('d0')), BIN('Sub', L('d1'), L('d0')))))
+row('C19', IV, 'lerp', _ret(BIN('Add', L('p0'), BIN('Mul', BIN('Sub', L('p1'), L('p0')), CAST(L('w'), 'f32')))))
+row('C19', IV, 'segment', _let('p0', INDEX(L('path'), BIN('Sub', L('i'), K(1)))))
+row('C19', IV, 'segment-lengths:d0', _let('d0', INDEX(L('lengths'), BIN('Sub', L('i'), K(1)))))
+row('C19', IV, 'segment-lengths:d1', _let('d1', INDEX(L('lengths'), L('i'))))
+
 # ------------------------------------------------------------------------------ C20
 row('C20', None, 'const:MAX_LEN', _const(EVENT + "SliderEventsIter::<'ticks_buf>::MAX_LEN", 100000.0))
 row('C20', None, 'const:TAIL_LENIENCY', _const(EVENT + "SliderEventsIter::<'ticks_buf>::TAIL_LENIENCY", -36.0))
@@ -365,6 +518,99 @@ row('C20', SEI, 'tick_dist-clamp', _all_assign([], CLAMP(L('tick_dist'), K(0.0),
 row('C20', SEI, 'min_dist_from_end',
     _struct_init(EVENT + 'SliderEventsIter', 'min_dist_from_end', BIN('Mul', L('velocity'), K(10.0), commutative=True)))
 row('C20', SEI, 'initial-state', _struct_init(EVENT + 'SliderEventsIter', 'state', P('SliderEventsIterState::Head')))
+
+# closed forms of head, ticks, repeats, last tick and tail ("have their closed-form times and progress values")
+NXT = "<" + EVENT + "SliderEventsIter<'_> as std::iter::Iterator>::next"
+GENT = EVENT + 'generate_ticks'
+REPT = EVENT + 'new_repeat_point'
+SELF_ = L('self')
+FROM = lambda p: OR(C('from', p), CAST(p, 'f64'))
+SPAN_START = lambda idx: BIN('Add', F(ANY(), 'start_time'), BIN('Mul', FROM(idx), F(ANY(), 'span_duration'), commutative=True))
+FINAL_IDX = BIN('Sub', F(SELF_, 'span_count'), K(1))
+EVENT_FORMS = {
+    'Head': {'span_idx': K(0), 'span_start_time': F(SELF_, 'start_time'), 'time': F(SELF_, 'start_time'),
+             'path_progress': K(0.0)},
+    'LastTick': {'span_idx': FINAL_IDX, 'span_start_time': SPAN_START(FINAL_IDX),
+                 'time': M('max', BIN('Add', F(SELF_, 'start_time'), BIN('Div', L('total_duration'), K(2.0))),
+                           BIN('Add', BIN('Add', SPAN_START(FINAL_IDX), F(SELF_, 'span_duration')), K(-36.0))),
+                 'path_progress': BIN('Div', BIN('Sub', L('last_tick_time'), SPAN_START(FINAL_IDX)), F(SELF_, 'span_duration'))},
+    'Tail': {'span_idx': FINAL_IDX, 'span_start_time': SPAN_START(FINAL_IDX),
+             'time': BIN('Add', F(SELF_, 'start_time'), L('total_duration')),
+             'path_progress': FROM(BIN('Rem', F(SELF_, 'span_count'), K(2)))},
+}
+
+
+def _event_literals(hfn):
+    res = []
+
+    def visit(n, anc):
+        if n.get('k') == 'struct' and n.get('adt') == EVENT + 'SliderEvent':
+            kind = None
+            for f in n['fields']:
+                if f['n'] == 'kind' and strip(f['e']).get('k') == 'path':
+                    kind = strip(f['e'])['def'].rsplit('::', 1)[-1]
+            res.append((kind, n))
+    H.walk(hfn['body'], visit)
+    return res
+
+
+def _event_forms(kind):
+    def chk(ctx, hfn):
+        lits = [n for k, n in _event_literals(hfn) if k == kind]
+        if len(lits) != 1:
+            return False, 'expected exactly one `SliderEvent { kind: %s, .. }` literal, found %d' % (kind, len(lits)), None
+        for f in lits[0]['fields']:
+            pat = EVENT_FORMS[kind].get(f['n'])
+            if pat is not None and not pmatch(ctx, pat, f['e']):
+                return False, ('the %s event\'s `%s` does not have its closed form %r' % (kind, f['n'], pat)), f.get('ln')
+        return True, '', lits[0].get('ln')
+    return chk
+
+
+for _k in ('Head', 'LastTick', 'Tail'):
+    row('C20', NXT, 'closed-form:' + _k, _event_forms(_k))
+row('C20', NXT, 'total_duration', _let('total_duration', BIN('Mul', FROM(F(SELF_, 'span_count')), F(SELF_, 'span_duration'),
+                                                             commutative=True)))
+
+
+def _last_tick_mirror(ctx, hfn):
+    """on an even span count the last tick's progress is mirrored -- and nothing else touches it"""
+    asg = assignments(hfn, 'last_tick_progress', [])
+    if len(asg) != 1:
+        return False, 'expected exactly one re-assignment of the last tick progress (the mirroring), found %d' % len(asg), None
+    r, ln, anc = asg[0]
+    if not BIN('Sub', K(1.0), L('last_tick_progress')).m(ctx, r):
+        return False, 'the last tick progress is not mirrored as `1 - progress`', ln
+    conds = [a for a in anc if isinstance(a, dict) and a.get('k') == 'if']
+    want = BIN('Eq', BIN('Rem', F(SELF_, 'span_count'), K(2)), K(0))
+    ok = bool(conds) and want.m(ctx, conds[-1]['c'])
+    return ok, '' if ok else 'the last tick progress is not mirrored exactly when the span count is even', ln
+
+
+row('C20', NXT, 'last-tick-mirrored-on-even-span-count', _last_tick_mirror)
+row('C20', GENT, 'reversed', _let('reversed', BIN('Eq', BIN('Rem', L('span'), K(2)), K(1))))
+row('C20', GENT, 'span_start_time', _let('span_start_time', SPAN_START(L('span'))))
+row('C20', GENT, 'with_repeat', _let('with_repeat', BIN('Lt', L('span'), BIN('Sub', F(ANY(), 'span_count'), K(1)))))
+row('C20', GENT, 'first-tick-distance', _let('d', F(ANY(), 'tick_dist')))
+row('C20', GENT, 'tick-step', _contains(_ASSIGNOP('AddAssign', L('d'), F(ANY(), 'tick_dist')),
+                                        'ticks advance by the tick distance (`d += tick_dist`)'))
+row('C20', GENT, 'ticks-up-to-length', _contains(IF(BIN('Le', L('d'), F(ANY(), 'len')), ANY()), 'tick loop runs while d <= len'))
+row('C20', GENT, 'min-distance-from-end',
+    _contains(IF(BIN('Ge', L('d'), BIN('Sub', F(ANY(), 'len'), F(ANY(), 'min_dist_from_end'))), CONTAINS(BREAK())),
+              'no tick within min_dist_from_end of the span end (`d >= len - min_dist_from_end` ends the span)'))
+row('C20', GENT, 'tick:path_progress', _let('path_progress', BIN('Div', L('d'), F(ANY(), 'len'))))
+row('C20', GENT, 'tick:time-mirrored-on-reversed-spans',
+    _let('time_progres', IF(L('reversed'), BIN('Sub', K(1.0), L('path_progress')), L('path_progress'))))
+row('C20', GENT, 'tick:time',
+    _struct_init(EVENT + 'SliderEvent', 'time',
+                 BIN('Add', L('span_start_time'), BIN('Mul', L('time_progres'), F(ANY(), 'span_duration'), commutative=True))))
+row('C20', GENT, 'tick:progress', _struct_init(EVENT + 'SliderEvent', 'path_progress', L('path_progress')))
+row('C20', GENT, 'tick:span', _struct_init(EVENT + 'SliderEvent', 'span_idx', L('span')))
+row('C20', REPT, 'repeat:time',
+    _struct_init(EVENT + 'SliderEvent', 'time', BIN('Add', L('span_start_time'), L('span_duration'))))
+row('C20', REPT, 'repeat:progress',
+    _struct_init(EVENT + 'SliderEvent', 'path_progress', FROM(BIN('Rem', BIN('Add', L('span'), K(1)), K(2)))))
+row('C20', REPT, 'repeat:span', _struct_init(EVENT + 'SliderEvent', 'span_idx', L('span')))
 
 
 def run(facts, out, props=None):
